@@ -942,12 +942,24 @@ func reflectResultRuleAs(r *Run, rule string) {
 		return
 	}
 	fn := w.SSAFunc(f)
+	m := w.coreModel()
+	// the reflect call: in the call evaluator or in one of the helpers it was split into
 	var call *ssa.Call
-	for _, b := range fn.Blocks {
-		for _, ins := range b.Instrs {
-			if c, ok := ins.(*ssa.Call); ok {
+	seenFn := map[*ssa.Function]bool{fn: true}
+	work := []*ssa.Function{fn}
+	for i := 0; i < len(work) && i < 16; i++ {
+		for _, b := range work[i].Blocks {
+			for _, ins := range b.Instrs {
+				c, ok := ins.(*ssa.Call)
+				if !ok {
+					continue
+				}
 				if pkg, name := staticCalleeName(c); pkg == "reflect" && name == "(Value).Call" {
 					call = c
+				}
+				if g := c.Call.StaticCallee(); g != nil && len(g.Blocks) > 0 && !seenFn[g] && m.inline(work[i], g) {
+					seenFn[g] = true
+					work = append(work, g)
 				}
 			}
 		}
@@ -956,13 +968,47 @@ func reflectResultRuleAs(r *Run, rule string) {
 		r.Lost(rule, "reflect.Value.Call in the call evaluator")
 		return
 	}
+	// where the result is looked at: the function of the call, or the helper its result is handed to
+	var root ssa.Value = call
+	fn = call.Parent()
+	for hop := 0; hop < 2; hop++ {
+		inspected := false
+		for _, b := range fn.Blocks {
+			for _, ins := range b.Instrs {
+				if ta, ok := ins.(*ssa.TypeAssert); ok && ta.CommaOk && isErrorType(ta.AssertedType) && derivesFromValue(ta.X, root, 0) {
+					inspected = true
+				}
+			}
+		}
+		if inspected {
+			break
+		}
+		// handed on (directly, or returned to the one caller that hands it on)
+		moved := false
+		for _, b := range fn.Blocks {
+			for _, ins := range b.Instrs {
+				c, ok := ins.(*ssa.Call)
+				if !ok || c.Call.StaticCallee() == nil || !seenFn[c.Call.StaticCallee()] {
+					continue
+				}
+				for ai, a := range c.Call.Args {
+					if a == root && ai < len(c.Call.StaticCallee().Params) && !moved {
+						root, fn, moved = c.Call.StaticCallee().Params[ai], c.Call.StaticCallee(), true
+					}
+				}
+			}
+		}
+		if !moved {
+			break
+		}
+	}
 	// the comma-ok assertion to error whose operand derives from the call result
 	var okFalse *ssa.BasicBlock
 	var okTrue *ssa.BasicBlock
 	for _, b := range fn.Blocks {
 		for _, ins := range b.Instrs {
 			ta, ok := ins.(*ssa.TypeAssert)
-			if !ok || !ta.CommaOk || !isErrorType(ta.AssertedType) || !derivesFromValue(ta.X, call, 0) {
+			if !ok || !ta.CommaOk || !isErrorType(ta.AssertedType) || !derivesFromValue(ta.X, root, 0) {
 				continue
 			}
 			// find the If on its ok
@@ -978,7 +1024,7 @@ func reflectResultRuleAs(r *Run, rule string) {
 				}
 			}
 			// the asserted operand must be the LAST result: index len(res)-1
-			if !lastIndexOf(ta.X, call) {
+			if !lastIndexOf(ta.X, root) {
 				r.Bad(rule, f.Name(), "error taken from a result other than the last", w.Pos(ta.Pos()), "the trailing result is the error result")
 			}
 		}
@@ -997,7 +1043,7 @@ func reflectResultRuleAs(r *Run, rule string) {
 	for _, b := range fn.Blocks {
 		for _, ins := range b.Instrs {
 			ia, ok := ins.(*ssa.IndexAddr)
-			if !ok || !derivesFromValue(ia.X, call, 0) {
+			if !ok || !derivesFromValue(ia.X, root, 0) {
 				continue
 			}
 			c, isC := ia.Index.(*ssa.Const)
